@@ -275,7 +275,9 @@ def pool_map(fn, items, chunksize=4, procs=None):
     procs = procs or NCPU
     if len(items) < 4 or procs == 1:
         return [fn(x) for x in items]
-    ctx = mp.get_context("fork")
+    # fork is cheap, but a parent that has imported polars / rtflite carries their thread pools: children forked from
+    # it can hang for ever in a futex.  Such a parent (a code path that ran a worker function inline) spawns instead.
+    ctx = mp.get_context("spawn" if ("polars" in sys.modules or "rtflite" in sys.modules) else "fork")
     with ctx.Pool(procs) as pool:
         return pool.map(fn, items, chunksize=chunksize)
 
